@@ -66,9 +66,16 @@ class Renderer(object):
             return
         r = self.rng
         if not self.layout:
-            n = self.emit(" ".join("@" + t for t in tags), None, indent)
-            for i in range(len(tags)):
-                self.lines[key + ("tag", i)] = n
+            import zlib
+            cut = len(tags)
+            if len(tags) >= 2 and zlib.crc32(" ".join(tags).encode("utf-8")) % 3 == 0:
+                cut = len(tags) // 2        # tags of one element on two lines (deterministic: no generator state is used here)
+            for lo, hi in ((0, cut), (cut, len(tags))):
+                if lo == hi:
+                    continue
+                n = self.emit(" ".join("@" + t for t in tags[lo:hi]), None, indent)
+                for i in range(lo, hi):
+                    self.lines[key + ("tag", i)] = n
             return
         i = 0
         while i < len(tags):
